@@ -809,6 +809,14 @@ func ZZChunkedFault() {
 	rt.Assert("c10-chunked-no-wait-for-a-reply-that-never-comes", w.mc.Starved == 0)
 	if w.mc.Faulted {
 		rt.Reach("fault-delivered")
+		// The key is stored completely. An append/prepend whose backend exchange was hit by an
+		// error status (other than "not found" / "not stored", which are passed on as they are
+		// and would be the backend lying about what it holds) or by a broken connection must not come back as "no such key": the two-tier
+		// orchestrators take that answer from L1 as "nothing to update in L1" and acknowledge.
+		lying := w.mc.FaultKind == model.FaultStatusReply && (w.mc.FaultStatus == 0x01 || w.mc.FaultStatus == 0x05)
+		if (cmd == 5 || cmd == 6) && !lying {
+			rt.Assert("c10-chunked-fault-not-reported-as-missing-key", err != common.ErrKeyNotFound && err != common.ErrItemNotStored)
+		}
 	}
 	broken := w.mc.Faulted && w.mc.FaultKind != model.FaultStatusReply
 	// whatever happened, a reader on a fresh connection sees the old value, the new value (of a
